@@ -40,7 +40,7 @@ package iobroker
 
 //@ func Broker.connect(b, ctx, sl, addr, cancelUs, cancelOther, dir, key, proxy)
 //@   locals b ctx sl addr cancelUs cancelOther dir key proxy dirT cctx cancel ct msg err f
-//@   props C01 C04 C06 C11 C12
+//@   props C01 C04 C06 C11 C12 C10 C20
 //@   ghost me int
 //@   ghost phase int = 0
 //@   ghost key0 string = ""
@@ -50,6 +50,7 @@ package iobroker
 //@   ghost otherAtRelock bool = false
 //@   ghost nProxy int = 0
 //@   ghost nNotice int = 0
+//@   ghost nLogf int = 0
 //@   ghost nErrRec int = 0
 //@   ghost reason string = ""
 //@   ghost nConn int = 0
@@ -64,7 +65,8 @@ package iobroker
 //@   on call Mutex.Lock(m): if phase == 0 { key0 = b.key; us0 = *cancelUs != nil; other0 = *cancelOther != nil; noMore0 = b.noMore; phase = 1 } else { otherAtRelock = *cancelOther != nil; phase = 2 }
 //@   on assign *cancelUs(v): if v != nil { if dir == LVInput { b.ownIn = me; b.kIn = key } else { b.ownOut = me; b.kOut = key } } else { if dir == LVInput { b.ownIn = 0 } else { b.ownOut = 0 } }
 //@   on enter proxy(c, l): assert(!noMore0 && key != "" && !(key0 == "" && (us0 || other0)) && !us0 && (key0 == "" || key == key0), "admitted_only"); assert(nNotice == 0, "no_close_or_gone_notice_before_proxy"); assert(!held("Broker.mu"), "proxy_runs_unlocked"); nProxy++
-//@   on call Broker.Errorf(bb, a, f, v): nNotice++
+//@   on call Broker.Logf(bb, a, f, v): assert(bb == b && a == addr, "notice_is_attributed_to_the_clients_address"); if nProxy == 0 && nNewConn == 1 && nLogf == 0 && !strings.HasPrefix(key, b.bidirKey) { assert(len(v) >= 2 && boxes(v[1], key), "connect_notice_names_the_callback_ID_the_client_sent") }; nLogf++
+//@   on call Broker.Errorf(bb, a, f, v): nNotice++; assert(bb == b && a == addr, "notice_is_attributed_to_the_clients_address"); if nProxy == 0 && key != "" && !strings.HasPrefix(key, b.bidirKey) { assert(len(v) >= 2 && boxes(v[1], key), "rejection_notice_names_the_callback_ID_the_client_sent") }
 //@   on call slog.Logger.Error(ll, m, v): nErrRec++; reason = m; if m == LMDisconnected { assert(nProxy == 1, "disconnect_record_after_proxy"); nDiscRec++ }
 //@   on call slog.Logger.Info(ll, m, v): if m == LMNewConnection { assert(nProxy == 0, "connect_record_before_proxy"); nNewConn++ } else { if m == LMDisconnected { assert(nProxy == 1, "disconnect_record_after_proxy"); nDiscRec++ } }
 //@   on send b.evCh(v): if v.Type == EventTypeConnected { nConn++ } else { if v.Type == EventTypeDisconnected { nDisc++ } }
@@ -78,7 +80,7 @@ package iobroker
 //@   ensures admitted_proxied: imp(!noMore0 && key != "" && !(key0 == "" && (us0 || other0)) && !us0 && (key0 == "" || key == key0), nProxy == 1)
 //@   ensures refusal_announced: imp(nProxy == 0 && !noMore0, nNotice >= 1 && nErrRec >= 1)
 //@   ensures shutdown_silent: imp(noMore0, nProxy == 0 && nNotice == 0)
-//@   ensures{C04} wg_balanced: nAdd == nDone && nAdd <= 1 && imp(nProxy == 1, nAdd == 1)
+//@   ensures{C04,C20} wg_balanced: nAdd == nDone && nAdd <= 1 && imp(nProxy == 1, nAdd == 1)
 //@   ensures{C11} records_accepted: imp(nProxy == 1, nNewConn == 1 && nDiscRec == 1)
 //@   ensures{C11} records_refused: imp(nProxy == 0, nNewConn == 0 && nDiscRec == 0 && imp(!noMore0, nErrRec == 1))
 //@   ensures{C11} reason_missing: imp(!noMore0 && key == "", reason == LMKeyMissing)
@@ -238,10 +240,13 @@ package iobroker
 //@   props C04 C12
 //@   ghost cur Event
 //@   ghost have bool = false
-//@   on recv b.evCh(e, ok): cur = e; have = true
-//@   on send l(v): assert(have && v == cur && held("Broker.evMu"), "listeners_get_exactly_the_received_event_under_the_listener_lock")
+//@   ghost nSent int = 0
+//@   on recv b.evCh(e, ok): cur = e; have = true; nSent = 0
+//@   on send l(v): assert(have && v == cur && held("Broker.evMu"), "listeners_get_exactly_the_received_event_under_the_listener_lock"); nSent++
 //@   loop 1
 //@     invariant unlocked: !held("Broker.evMu")
+//@   loop 1.1 counter j
+//@     invariant every_listener_visited_so_far_was_sent_the_event: nSent == j && have && held("Broker.evMu")
 
 // Listener registration only touches the listener set, under its lock.
 //@ func Broker.AddEventListener(b, ch)
